@@ -288,3 +288,103 @@ def rand_mentions(rng, jsx=False, nmax=8):
             mentions += ms
             chunks.append('[' + body + ']')
     return ''.join(chunks), mentions
+
+
+# ---------------------------------------------------------------- tree tie: markup.parse vs the extracted model (run/AttrRun.v)
+def impl_tree(abbr, user_config):
+    """Preorder of emmet.markup.parse(abbr, Config): (depth, name, value, repeat, attrs, self_closing)."""
+    import copy as _copy
+    from emmet.config import Config
+    from emmet.markup import parse
+    from emmet.abbreviation.tokenizer.tokens import Field
+    from markup_util import classify_exc
+
+    def val(v):
+        if v is None:
+            return None
+        out = []
+        for t in v:
+            if isinstance(t, str):
+                out.append(('s', t))
+            elif isinstance(t, Field):
+                out.append(('f', t.index, t.name))
+            else:
+                out.append(('?', repr(t)))
+        return out
+    vts = {'raw': 0, 'singleQuote': 1, 'doubleQuote': 2, 'expression': 3}
+
+    def attrs(l):
+        if l is None:
+            return None
+        return [(a.name, val(a.value), vts.get(a.value_type, a.value_type), bool(a.boolean), bool(a.implied), bool(a.multiple))
+                for a in l]
+    try:
+        tree = parse(abbr, Config(_copy.deepcopy(user_config)))
+    except Exception as e:  # noqa
+        return classify_exc(e)
+    out = []
+
+    def walk(n, d):
+        rp = n.repeat
+        out.append((d, n.name, val(n.value), None if rp is None else (rp.count, rp.value, bool(rp.implicit)),
+                    attrs(n.attributes), bool(n.self_closing)))
+        for c in n.children:
+            walk(c, d + 1)
+    for c in tree.children:
+        walk(c, 0)
+    return ('ok', out)
+
+
+def decode_tree(w):
+    from markup_util import decode_res
+
+    def vtok(r):
+        return ('s', r.str()) if r.int() == 0 else ('f', r.int(), r.str())
+
+    def attr(r):
+        return (r.opt(r.str), r.opt(lambda: r.list(lambda: vtok(r))), r.int(), r.bool(), r.bool(), r.bool())
+
+    def node(r):
+        return (r.int(), r.opt(r.str), r.opt(lambda: r.list(lambda: vtok(r))),
+                r.opt(lambda: (r.int(), r.int(), r.bool())), r.opt(lambda: r.list(lambda: attr(r))), r.bool())
+    return decode_res(w, lambda r: r.list(lambda: node(r)))
+
+
+def compare_trees(ctx, label, cases):
+    """cases: [(abbr, cfg)].  Runs markup.parse and the extracted tree model; counts disagreements."""
+    from common import enc_str
+    from markup_util import enc_config, NotModelled, canon_cfg, mentions_lorem
+    model = ctx.model('attr')
+    if model is None:
+        return
+    wires, idx, impl = [], [], []
+    for k, (abbr, cfg) in enumerate(cases):
+        if mentions_lorem(abbr, cfg):
+            continue
+        try:
+            w = [1] + enc_config(cfg) + enc_str(abbr)
+        except NotModelled:
+            continue
+        wires.append(w)
+        idx.append(k)
+        impl.append(impl_tree(abbr, cfg))
+    dis = 0
+    if wires:
+        for k, w, im in zip(idx, model.run(wires), impl):
+            mo = decode_tree(w)
+            if im[0] == 'recursion':
+                continue
+            if mo != im:
+                dis += 1
+                abbr, cfg = cases[k]
+                if dis <= 5:
+                    d = ''
+                    if mo[0] == 'ok' and im[0] == 'ok':
+                        for a, b in zip(mo[1], im[1]):
+                            if a != b:
+                                d = '\n  first difference: model %r\n                    impl  %r' % (a, b)
+                                break
+                    ctx.say('DISAGREE %s-tree %r cfg=%s%s' % (label, abbr, canon_cfg(cfg), d or '\n  impl %r\n  model %r' % (str(im)[:300], str(mo)[:300])))
+                    ctx.broken.append({'kind': 'correspondence', 'file': 'markup-%s-tree' % label, 'input': abbr,
+                                       'config': canon_cfg(cfg), 'impl': repr(im)[:300], 'model': repr(mo)[:300]})
+    ctx.cov['correspondence']['markup_%s_tree' % label] = {'cases': len(wires), 'disagreements': dis}
